@@ -45,6 +45,11 @@ type ClockCase struct {
 	// already cancelled) context; "root-ctx" = the environment also carries a
 	// root context installed with WithContext, different from the call's
 	Via    string `json:"via,omitempty"`
+	// Nested: exactly two sleeps, the second one inside a handler for
+	// context-cancelled around the first (entered when the first is refused
+	// beyond the deadline, or -- never, if evaluation stops as it must -- when
+	// the context dies during it)
+	Nested bool `json:"nested,omitempty"`
 	OldCtx string `json:"old_ctx,omitempty"` // background | cancelled | deadline-past | long-deadline
 }
 
@@ -254,6 +259,23 @@ func (e *clockEngine) Gen(r *Rand, tier string) any {
 			break
 		}
 	}
+	if c.CtxKind != "none" && c.CtxKind != "background" && r.Chance(1, 5) {
+		c.Nested = true
+		c.Sleeps = c.Sleeps[:1]
+		rem, left := c.DeadlineNs-st.now, c.CancelNs-st.now
+		cands := []int64{1, int64(time.Second), hourNs, span, 1 + r.I63n(span)}
+		if c.DeadlineNs > 0 {
+			cands = append(cands, rem-1, rem+1, rem+1, 2*rem+1, rem/2, c.DeadlineNs, c.DeadlineNs+1)
+		}
+		if c.CancelNs > 0 {
+			cands = append(cands, left-1, left+1, left+1, 2*left+1, c.CancelNs+1)
+		}
+		c.Sleeps = append(c.Sleeps, SleepCall{DNs: cands[r.Intn(len(cands))]})
+		if r.Chance(1, 2) && c.DeadlineNs > 0 {
+			// make the first sleep one that is refused beyond the deadline
+			c.Sleeps[0] = SleepCall{DNs: c.DeadlineNs + 1 + r.I63n(1000)}
+		}
+	}
 	return c
 }
 
@@ -279,6 +301,7 @@ func durLit(ns int64) string { return fmt.Sprintf("(time:parse-duration \"%dns\"
 func clockProgram(c *ClockCase) string {
 	var b strings.Builder
 	h := "(handler-bind ((condition (lambda (c &rest d) c)))"
+	nested := ""
 	for i, s := range c.Sleeps {
 		sleepFn := "time:sleep"
 		if c.Via == "fn-other-ctx" {
@@ -291,6 +314,14 @@ func clockProgram(c *ClockCase) string {
 			call += " :max " + durLit(s.MaxNs)
 		}
 		call += ")"
+		if c.Nested {
+			if i == 0 {
+				nested = call
+				continue
+			}
+			fmt.Fprintf(&b, "(sim:probe 'before 0)\n(sim:probe 'r 0 %s (handler-bind ((context-cancelled (lambda (c &rest d) (sim:probe 'before 1) (sim:probe 'r 1 %s %s)) c))) %s)))\n", h, h, call, nested)
+			break
+		}
 		fmt.Fprintf(&b, "(set 't0 (time:utc-now))\n(sim:probe 'before %d)\n(sim:probe 'r %d %s %s))\n(set 't1 (time:utc-now))\n", i, i, h, call)
 		fmt.Fprintf(&b, "(sim:probe 'clk %d (time:duration-ns (time:time-from t0 t1)) (time:time< t0 t1) (time:time> t0 t1) (time:time= t0 t1) (time:time= (time:time-add t0 (time:time-from t0 t1)) t1) (time:time= (time:parse-rfc3339-nano (time:format-rfc3339-nano t1)) t1) (= (time:duration-ns (time:time-elapsed t0)) (time:duration-ns (time:time-from t0 t1))) (time:time= (time:time-add t1 (time:time-from t1 t0)) t0))\n", i)
 	}
@@ -438,11 +469,30 @@ func (e *clockEngine) runInBubble(c *ClockCase, st *Stats) *Violation {
 	h := NewHash().Str(c.CtxKind)
 	nontrivial := false
 	si := 0
+	class0 := ""
 	for i, call := range c.Sleeps {
 		pred := modelSleep(ms, call)
 		// locate this sleep's stamps
 		var before, res, clk *stamp
-		for si < len(stamps) {
+		for c.Nested && si < len(stamps) {
+			// nested order: before 0, [before 1, r 1,] r 0
+			if s := &stamps[si]; strings.HasPrefix(s.ev.Args, fmt.Sprint(i)) {
+				switch s.tag {
+				case "before":
+					before = s
+				case "r":
+					res = s
+				}
+			}
+			si++
+		}
+		if c.Nested {
+			si = 0
+			if i > 1 {
+				break
+			}
+		}
+		for !c.Nested && si < len(stamps) {
 			s := &stamps[si]
 			if !strings.HasPrefix(s.ev.Args, fmt.Sprint(i)) {
 				break
@@ -463,6 +513,9 @@ func (e *clockEngine) runInBubble(c *ClockCase, st *Stats) *Violation {
 				time.Duration(c.DeadlineNs), time.Duration(c.CancelNs), time.Duration(ms.now), fmt.Sprintf(format, a...))
 		}
 		if before == nil {
+			if c.Nested && i == 1 && class0 != "context-cancelled" {
+				break // the handler was not entered, and had no reason to be
+			}
 			// the evaluation died before reaching this sleep
 			if !ms.dead && !(pred.dead && pred.elapsed == 0) {
 				return fail("sleep-outcome", "evaluation ended before this sleep with %q although the context was alive", out.Result())
@@ -471,7 +524,19 @@ func (e *clockEngine) runInBubble(c *ClockCase, st *Stats) *Violation {
 		}
 		var class string
 		var at int64
-		if res != nil {
+		var inner *stamp
+		if c.Nested && i == 0 {
+			for j := range stamps {
+				if stamps[j].tag == "before" && strings.HasPrefix(stamps[j].ev.Args, "1") {
+					inner = &stamps[j]
+				}
+			}
+		}
+		if inner != nil {
+			// the handler for context-cancelled was entered: that is how the first sleep ended, and when
+			at, class = inner.at, "context-cancelled"
+			st.Inc("reach_sleep_inside_context_cancelled_handler")
+		} else if res != nil {
 			at = res.at
 			parts := strings.SplitN(res.ev.Args, " ", 2)
 			class = "nil"
@@ -486,6 +551,9 @@ func (e *clockEngine) runInBubble(c *ClockCase, st *Stats) *Violation {
 			}
 		}
 		elapsed := at - before.at
+		if i == 0 {
+			class0 = class
+		}
 		okClass := false
 		for _, cl := range pred.classes {
 			if cl == class {
@@ -560,6 +628,7 @@ func (e *clockEngine) Shrink(ci any) []any {
 		if len(c.Sleeps) > 1 {
 			d := *c
 			d.Sleeps = append(append([]SleepCall(nil), c.Sleeps[:i]...), c.Sleeps[i+1:]...)
+			d.Nested = false
 			out = append(out, &d)
 		}
 	}
